@@ -1,5 +1,5 @@
 """C17: spiftool_version_compare is a safe, deterministic, antisymmetric order (src/strings.c)."""
-import itertools, re
+import itertools, os, re
 import vlib
 
 
@@ -80,20 +80,28 @@ class C17(vlib.PropertyCheck):
     MANIFEST = dict(
         technique='Rocq theorems about an executable Gallina model of spiftool_version_compare (scratch buffers as initially '
                   'uninitialised cell lists) + extracted-model/implementation correspondence check with painted stack',
-        text=('Proved in Rocq for all pairs of C strings (all lengths, all bytes 1..255): the model of the repaired function never '
-              'faults (no out-of-bounds access to the two scratch buffers whatever the run lengths, no read of an uninitialised cell, '
-              'terminates within length+1 iterations), cmp(a,a) = equal, cmp(b,a) = opposite of cmp(a,b); and as general lemmas over '
-              'all digit strings / component lists: dotted numeric versions are ordered lexicographically by component value with a '
-              'proper prefix below (arbitrary precision, leading zeros ignored), snap < pre < alpha < beta < rc after any common '
-              'prefix, a suffix beginning (case-insensitively) with snap/pre/alpha/beta ranks below the bare version and any other '
-              'non-empty suffix that starts a new run above it. The property text says "a snap/pre/alpha/beta suffix"; the code and '
-              'the theorem use "begins with" (so 1.0prefix < 1.0). Transitivity is not claimed (the class-mismatch rule makes the '
-              'relation non-transitive, e.g. 1.0pre2 < 1.0 < 1.0.1 < 1.0pre2). The model is tied to the tree by gen_vercmp.py '
-              '(buffer sizes, word ranks and tail prefixes regenerated from the source each run) and by running the extracted model '
-              'and the ASan/UBSan build on all pairs of strings up to length 4 (quick: 3) over {a,b,1,2,.,-}, random pairs with runs '
-              'of 126-130 and 300 characters, token strings with upper case and high-bit bytes, and all pairs of a pool of '
-              'well-formed versions, both argument orders, each call twice with the stack painted 0xA5 / 0x5A; determinism, '
-              'antisymmetry, reflexivity and the order facts the text fixes are also checked directly on the implementation output.'),
+        text=('Proved in Rocq (12 theorems, closed under the global context) for all pairs of C strings (all lengths, all bytes '
+              '1..255): the model of the repaired function never faults - no out-of-bounds access to the two scratch buffers whatever '
+              'the run lengths, no read of an uninitialised cell, termination within length+1 iterations (C17_vercmp_safe); started on '
+              'any prior content of the scratch buffers it returns the same value (C17_vercmp_deterministic); cmp(a,a) = equal; '
+              'cmp(b,a) = opposite of cmp(a,b). As general lemmas: dotted numeric versions (all component lists, all digit strings) are '
+              'ordered lexicographically by component value, arbitrary precision, leading zeros ignored, a proper prefix below '
+              '(C17_numeric_order, C17_longer_numeric_wins); V against V+t where t starts a new run is below V exactly when t begins '
+              'case-insensitively with snap/pre/alpha/beta and above otherwise (C17_suffix_rule, C17_wf_suffix); snap < pre < alpha < '
+              'beta < rc in any letter case after the same numeric version whatever follows (C17_wf_prerelease_order); numbers after '
+              'a common prefix compare by value (C17_number_after_prefix). The property text says "a snap/pre/alpha/beta suffix"; the '
+              'code and the theorem use "begins with" (1.0prefix < 1.0). Transitivity is not part of the property and does not hold '
+              '(1.0pre2 < 1.0 < 1.0.1 < 1.0pre2, Example C17_ex_not_transitive). The unrepaired run copies and class-mismatch branch '
+              'are faults of the same model (C17_orig_copy_refuted, C17_orig_mismatch_refuted). Decided by the correspondence check '
+              'only: that the C function computes what the model computes (including strcmp/strcasecmp/strncmp/strncasecmp/ctype of '
+              'glibc in the C locale and bytes >= 0x80), that reads of the two argument strings stay inside them (by construction in '
+              'the model; exactly sized heap blocks under ASan on the implementation side), and stack independence of the compiled '
+              'code (each call twice with the stack painted 0xA5 / 0x5A). The tie: gen_vercmp.py regenerates buffer sizes, word ranks '
+              'and tail prefixes from the source each run; extracted model and ASan/UBSan build run on all unordered pairs of strings '
+              'up to length 4 (quick: 3) over {a,b,1,2,.,-}, random pairs with runs of 126-130 and 300 characters, token strings '
+              'with upper case and high-bit bytes, and all pairs of a pool of well-formed versions, both argument orders; '
+              'determinism, antisymmetry, reflexivity and the order facts the text fixes are also checked directly on the '
+              'implementation output (level A), exact agreement with the model is level B.'),
         design_ref='DESIGN.md section 7, C17')
 
     # ---- generators -------------------------------------------------------------------
@@ -174,7 +182,36 @@ class C17(vlib.PropertyCheck):
             out.append((a, b))
         return out
 
+    def build_impl(self):
+        exe, log = super().build_impl()
+        self._impl_exe = exe
+        return exe, log
+
     def gen(self, tier, rng):
+        """All cases - unless a sample of them already makes the implementation crash more than 20 times (every
+        sanitizer abort costs a restart of the harness; a tree with the class-mismatch defect aborts on ~40% of the
+        cases): then only the sample is run, which is enough to report the failing input quickly."""
+        full = self.gen_all(tier, rng)
+        exe = getattr(self, '_impl_exe', None)
+        if exe:
+            smoke = []
+            cdir = os.path.join(vlib.VERIF, 'corpus', self.id)
+            if os.path.isdir(cdir):
+                for fn in sorted(os.listdir(cdir)):
+                    with open(os.path.join(cdir, fn)) as f:
+                        smoke += [l.rstrip('\n') for l in f if l.strip() and not l.startswith('//')]
+            smoke += full[::max(1, len(full) // 300)]
+            work = os.path.join(vlib.BUILD, 'work', self.id.lower())
+            os.makedirs(work, exist_ok=True)
+            path = os.path.join(work, 'cases-smoke.txt')
+            with open(path, 'w') as f:
+                f.write(''.join(c + '\n' for c in smoke))
+            res, _ = vlib.run_cases(exe, path, len(smoke), timeout_per_run=60)
+            if sum(1 for r in res if r and r.startswith('FAULT')) > 20:
+                return smoke
+        return full
+
+    def gen_all(self, tier, rng):
         cases = []
         L = 3 if tier == 'quick' else 4
         strs = [bytes(t) for l in range(L + 1) for t in itertools.product(SMALL, repeat=l)]
@@ -225,9 +262,18 @@ class C17(vlib.PropertyCheck):
         if a == b and r[0] != 0:
             return 'compare(a,a) is not EQUAL'
         e = expected(a, b)
+        if t[0] == 'wf':
+            self._wf_seen = getattr(self, '_wf_seen', 0) + 1
+            if e is not None:
+                self._wf_decided = getattr(self, '_wf_decided', 0) + 1
         if e is not None and e != r[0]:
             return 'well-formed versions: the property text fixes %d, got %d' % (e, r[0])
         return None
+
+    def extra_steps(self, ctx):
+        ctx['cov']['wf_pairs_checked'] = getattr(self, '_wf_seen', 0)
+        ctx['cov']['wf_pairs_value_fixed_by_property_text'] = getattr(self, '_wf_decided', 0)
+        return []
 
     def nontrivial(self, case, mout):
         t = case.split()
